@@ -151,7 +151,7 @@ func checkC17(r *harness.Run) harness.Coverage {
 	}
 	type pj struct {
 		u, v, w string
-		k     int
+		k       int
 	}
 	var jobs []pj
 	for _, p := range univ.PumpPairs {
